@@ -387,6 +387,8 @@ EXOTIC_VALUES = [
     "\ud800 lone high surrogate",
     "emoji \U0001f600 and NUL \x00 and CR\r\n",   # non-BMP, control characters
     {"name": "r\udcffsum\udce9", "n": 1},
+    {1: 10.0, 2: 0.5},             # a lookup table keyed by numbers (JSON can only write such keys as strings)
+    {"table": {1.5: "a", 2: "b"}, "k": [1, {3: 4}]},
 ]
 
 
